@@ -1058,7 +1058,9 @@ func sameOf(pred func(ir.ScalarType) bool) func(*typer, []rtype, []shape) (rtype
 	}
 }
 
-func isSignedOrFloat(s ir.ScalarType) bool { return s.Kind == ir.ScalarSint || s.Kind == ir.ScalarFloat }
+func isSignedOrFloat(s ir.ScalarType) bool {
+	return s.Kind == ir.ScalarSint || s.Kind == ir.ScalarFloat
+}
 
 func packRule(n ir.VectorSize, sc ir.ScalarType) func(*typer, []rtype, []shape) (rtype, bool) {
 	return func(t *typer, a []rtype, s []shape) (rtype, bool) {
